@@ -307,6 +307,9 @@ func ConvertDecimal64(value string, lst *sdcpb.SchemaLeafType) (*sdcpb.TypedValu
 	if err != nil {
 		return nil, err
 	}
+	if d64 == nil {
+		return nil, fmt.Errorf("invalid decimal64 value %q", value)
+	}
 
 	return &sdcpb.TypedValue{
 		Value: &sdcpb.TypedValue_DecimalVal{
@@ -365,7 +368,13 @@ func ConvertJsonValueToTv(d any, slt *sdcpb.SchemaLeafType) (*sdcpb.TypedValue, 
 		case uint64:
 			i = v
 		case float64:
+			// only whole, non-negative numbers within the range can be taken over
+			if v < 0 || v != math.Trunc(v) || v >= math.MaxUint64 {
+				return nil, fmt.Errorf("error converting %v to %s", d, slt.Type)
+			}
 			i = uint64(v)
+		default:
+			return nil, fmt.Errorf("error converting %v (%T) to %s", d, d, slt.Type)
 		}
 		return &sdcpb.TypedValue{
 			Value: &sdcpb.TypedValue_UintVal{UintVal: i},
@@ -388,7 +397,12 @@ func ConvertJsonValueToTv(d any, slt *sdcpb.SchemaLeafType) (*sdcpb.TypedValue, 
 		case int64:
 			i = v
 		case float64:
+			if v != math.Trunc(v) || v >= math.MaxInt64 || v < math.MinInt64 {
+				return nil, fmt.Errorf("error converting %v to %s", d, slt.Type)
+			}
 			i = int64(v)
+		default:
+			return nil, fmt.Errorf("error converting %v (%T) to %s", d, d, slt.Type)
 		}
 		return &sdcpb.TypedValue{
 			Value: &sdcpb.TypedValue_IntVal{IntVal: i},
@@ -403,24 +417,25 @@ func ConvertJsonValueToTv(d any, slt *sdcpb.SchemaLeafType) (*sdcpb.TypedValue, 
 			if err != nil {
 				return nil, err
 			}
+		default:
+			return nil, fmt.Errorf("error converting %v (%T) to %s", d, d, slt.Type)
 		}
 		return &sdcpb.TypedValue{
 			Value: &sdcpb.TypedValue_BoolVal{BoolVal: b},
 		}, nil
 	case "decimal64":
-		arr := strings.SplitN(d.(string), ".", 2)
-		digits, err := strconv.ParseInt(arr[0], 10, 64)
-		if err != nil {
-			return nil, err
+		var str string
+		switch v := d.(type) {
+		case string:
+			str = v
+		case float64:
+			str = strconv.FormatFloat(v, 'f', -1, 64)
+		case fmt.Stringer: // json.Number
+			str = v.String()
+		default:
+			return nil, fmt.Errorf("error converting %v (%T) to %s", d, d, slt.Type)
 		}
-		precision64, err := strconv.ParseUint(arr[1], 10, 32)
-		if err != nil {
-			return nil, err
-		}
-		precision := uint32(precision64)
-		return &sdcpb.TypedValue{
-			Value: &sdcpb.TypedValue_DecimalVal{DecimalVal: &sdcpb.Decimal64{Digits: digits, Precision: precision}},
-		}, nil
+		return ConvertDecimal64(str, slt)
 	case "union":
 		for _, ut := range slt.GetUnionTypes() {
 			tv, err := ConvertJsonValueToTv(d, ut)
